@@ -61,8 +61,12 @@ def stratum(node):
 
             def shape(lp):
                 # kinds of start/stop/step (L literal, R reference, O other) of one loop
-                return "".join("L" if isinstance(e, Literal) else ("R" if type(e).__name__ == "Reference" else "O")
-                               for e in (lp.start_expr, lp.stop_expr, lp.step_expr))
+                sh = "".join("L" if isinstance(e, Literal) else ("R" if type(e).__name__ == "Reference" else "O")
+                             for e in (lp.start_expr, lp.stop_expr, lp.step_expr))
+                # the value of a literal step other than 1 matters to chunking/tiling
+                if isinstance(lp.step_expr, Literal) and lp.step_expr.value != "1":
+                    sh += lp.step_expr.value
+                return sh
             depth, cur, shapes = 1, node, [shape(node)]
             while len(cur.loop_body.children) == 1 and isinstance(cur.loop_body.children[0], Loop) and depth < 3:
                 depth, cur = depth + 1, cur.loop_body.children[0]
@@ -577,7 +581,7 @@ def run(ctx):
                 picks = [picks[i] for i in sorted(rng.sample(range(len(picks)), nder))]
             if prog.name not in fixed:
                 continue
-            for a in picks if (ctx.thorough or prog.name == "loops") else []:
+            for a in picks if ctx.thorough else []:
                 dp = Derived(prog, *a)
                 n0 = sw.n_attempts
                 try:
